@@ -785,6 +785,33 @@ void random_case(Ctx& c, vf::Rng& r)
     }
 }
 
+// std APIs of pair/tuple that etl does not provide: detected (SFINAE-friendly), listed in the evidence, not compared
+template <typename I = int>
+std::string absent_apis()
+{
+    using ET2 = etl::tuple<I, long>;
+    using EP2 = etl::pair<I, long>;
+    std::string s;
+    auto add = [&](bool present, char const* what) {
+        if (!present) {
+            s += s.empty() ? "" : "; ";
+            s += what;
+        }
+    };
+    add(std::is_constructible_v<etl::tuple<long, long>, ET2 const&>, "tuple(tuple<Us...> const&)");
+    add(std::is_constructible_v<ET2, EP2 const&>, "tuple(pair<U1,U2> const&)");
+    add(std::is_copy_assignable_v<ET2>, "tuple::operator=(tuple const&)");
+    add(std::is_move_assignable_v<ET2>, "tuple::operator=(tuple&&)");
+    add(requires(ET2 a, ET2 b) { a < b; }, "operator<(tuple,tuple)");
+    add(requires(ET2 a, ET2 b) { a <=> b; }, "operator<=>(tuple,tuple)");
+    add(requires(ET2 a, ET2 b) { swap(a, b); }, "swap(tuple&,tuple&)");
+    add(requires(ET2 a) { etl::get<I>(a); }, "get<T>(tuple)");
+    add(requires(EP2 a) { etl::get<I>(a); }, "get<T>(pair)");
+    add(requires(EP2 a, EP2 b) { a <=> b; }, "operator<=>(pair,pair)");
+    add(requires(EP2 a, etl::pair<long, I> b) { a == b; }, "operator==(pair<T1,T2>,pair<U1,U2>)");
+    return s.empty() ? "none" : s;
+}
+
 vf::Spec spec(vf::Tier t)
 {
     vf::Spec s;
@@ -810,6 +837,7 @@ void run_case(vf::Case& c)
         x.h = vf::mix(0xC20, c.index);
         std::snprintf(x.desc, sizeof x.desc, "x=(%d,%d,%d) y=(%d,%d,%d)", x.x[0], x.x[1], x.x[2], x.y[0], x.y[1], x.y[2]);
         if (vf::want_sample("enumerated")) { vf::sample("enumerated", "%s: every pair/tuple operation of the unit on these values", x.desc); }
+        if (c.index == 0) { vf::sample("std-api-not-provided-by-etl(skipped)", "%s", absent_apis().c_str()); }
         pair_relations<int, int>(x, "pair<int,int>");
         pair_relations<long, unsigned char>(x, "pair<long,unsigned char>");
         pair_relations<Co, int>(x, "pair<Co,int>");
